@@ -13,8 +13,9 @@ package store
 //@ model func isEdge(db *DbSqlite, down string, up string) bool
 //@ model func edgeTomb(db *DbSqlite, down string, up string) float64
 //@ model func rank(db *DbSqlite, id string) int
+//@ model func hgt(db *DbSqlite, id string) int
 //@ spec func liveEdge(db *DbSqlite, down string, up string) bool = isEdge(db, down, up) && fmodf(edgeTomb(db, down, up), 2.0) == 0.0
-//@ spec func acyclic(db *DbSqlite) bool = forall d string, u string :: isEdge(db, d, u) ==> 0 <= rank(db, u) && rank(db, u) < rank(db, d)
+//@ spec func acyclic(db *DbSqlite) bool = forall d string, u string :: isEdge(db, d, u) ==> 0 <= rank(db, u) && rank(db, u) < rank(db, d) && 0 <= hgt(db, d) && hgt(db, d) < hgt(db, u)
 
 // edgeDel(db, down, up): the edge's points contain a tombstone point with a non-zero value (the test userCheck uses)
 //@ model func edgeDel(db *DbSqlite, down string, up string) bool
@@ -211,6 +212,7 @@ package store
 //@ extern store.(*DbSqlite).getNodes(sdb, tx, parent, id, typ, includeDel)
 //@   fresh res0
 //@   ensures res1 == nil && parent == "all" ==> (forall k int :: 0 <= k && k < len(res0) ==> res0[k].ID == id && sameSlice(res0[k].Points, res0[0].Points))
+//@   ensures res1 == nil && id == "all" ==> (forall k int :: 0 <= k && k < len(res0) ==> isEdge(sdb, res0[k].ID, parent))
 
 //@ spec func credsMatch(u data.NodeEdge, email string, password string) bool = findText(u.Points, "email", "") == email && findText(u.Points, "pass", "") == password
 //@ func (*DbSqlite).userCheck
@@ -500,3 +502,29 @@ package store
 // committed transactions across a process crash) are the reviewed ones.
 //@ literal [C04] pragmas "_pragma=journal_mode(WAL)"
 //@ literal [C04] pragmas "_pragma=synchronous(NORMAL)"
+
+
+// ---- verifyNodeHashes (C04): the verification/repair walk keeps the transaction protocol ------------------------------
+//@ extern data.(NodeEdge).CalcHash(n, children)
+// verify (the recursive function literal)
+//@ func (*DbSqlite).verifyNodeHashes$2
+//@   props C04
+//@   local node data.NodeEdge#1
+//@   local children []data.NodeEdge#1
+//@   summary
+//@   self verify
+//@   requires sdb != nil && tx != nil && txOpen(tx) && acyclic(sdb)
+//@   decreases hgt(sdb, node.ID)
+//@   ensures [C04] txOpen(tx)
+//@   loop 1:
+//@     invariant -1 <= rangeindex && rangeindex < len(children) || rangeindex == -1
+//@     invariant txOpen(tx)
+//@     invariant forall k int :: 0 <= k && k < len(children) ==> isEdge(sdb, children[k].ID, node.ID)
+//@     decreases len(children) - rangeindex
+//@ func (*DbSqlite).verifyNodeHashes
+//@   props C04
+//@   local sdb *store.DbSqlite#1
+//@   requires sdb != nil && sdb.db != nil && acyclic(sdb)
+//@   modifies state(sdb.db), state(sql.Tx)
+//@   ensures [C04] no-transaction-left-open: openTxs(sdb.db) == old(openTxs(sdb.db))
+//@   ensures [C04] error-means-no-commit: res0 != nil ==> commits(sdb.db) == old(commits(sdb.db))
